@@ -125,26 +125,26 @@ def hook_commits():
 
 # what was added to each check after the first full build (appended to the technique text)
 EXTRA = {
- "C01": "unbounded inductive proof of collect-by-swap conservation with Apalache (CollectInd; the original read-then-reset collect refuted); command-line runs also as the SECOND run on their F1 instance and as a component of CombineScenarios",
+ "C01": "unbounded inductive proof of collect-by-swap conservation with Apalache (CollectInd; the original read-then-reset collect refuted); command-line runs also as the SECOND run on their F1 instance and as a component of CombineScenarios; executed iterations missing from the final result (users stages followed by a rate stage)",
  "C02": "unbounded inductive proof of the pending-request ledger with Apalache (JobLedgerInd; give-back mutant refuted); schedules the mechanism spec cannot follow are diagnostics (CONFORMANCE-DRIFT), the verdict is the spec's invariants and F1Run's ledger; count-based limit clause with the configured concurrency; command-line runs also as the SECOND run on their F1 instance and as a component of CombineScenarios",
- "C03": "cooperative schedules of the real ContinuousPool (cpool) validated by F1Run and replayed as ACTIONS of ContinuousPool.tla (Trace_ContinuousPool, InvC03); ids re-read at body end; 8 file-stage boundaries under load; ids KEPT by the scenario compared after the run; whole runs also through the real command line (F1.ExecuteWithArgs: flag parsing, run_cmd plumbing, run file <path>, SIGINT as the cancellation); command-line runs also as the SECOND run on their F1 instance and as a component of CombineScenarios",
- "C04": "cooperative schedules of the real ContinuousPool incl. all-busy rendezvous (cpool, Trace_ContinuousPool InvC04); stress with losing takers before a full tick; command-line runs also as the SECOND run on their F1 instance and as a component of CombineScenarios",
- "C05": "every whole run replayed as ACTIONS of the generative RunPhases spec (Trace_RunPhases, six end-to-end paths must be exercised); cooperative users-pool schedules incl. a pool started on a dead context (Trace_ContinuousPool InvC05, mutant Mut_ContinuousPool_precancel refuted); order-based clause 'cancel() returned during setup => nothing starts'; whole runs also through the real command line (F1.ExecuteWithArgs: flag parsing, run_cmd plumbing, run file <path>, SIGINT as the cancellation); command-line runs also as the SECOND run on their F1 instance and as a component of CombineScenarios",
- "C06": "every whole run replayed as ACTIONS of RunPhases (setup / setup cleanups / summary order); cancellation / Ctrl-C during a setup that then fails; whole runs also through the real command line (F1.ExecuteWithArgs: flag parsing, run_cmd plumbing, run file <path>, SIGINT as the cancellation); command-line runs also as the SECOND run on their F1 instance and as a component of CombineScenarios",
+ "C03": "cooperative schedules of the real ContinuousPool (cpool) validated by F1Run and replayed as ACTIONS of ContinuousPool.tla (Trace_ContinuousPool, InvC03); ids re-read at body end; 8 file-stage boundaries under load; ids KEPT by the scenario compared after the run; whole runs also through the real command line (F1.ExecuteWithArgs: flag parsing, run_cmd plumbing, run file <path>, SIGINT as the cancellation); command-line runs also as the SECOND run on their F1 instance and as a component of CombineScenarios; --max-iterations on a run file command line: refused or honoured",
+ "C04": "cooperative schedules of the real ContinuousPool incl. all-busy rendezvous (cpool, Trace_ContinuousPool InvC04); stress with losing takers before a full tick; command-line runs also as the SECOND run on their F1 instance and as a component of CombineScenarios; default --concurrency after an earlier run that set it",
+ "C05": "every whole run replayed as ACTIONS of the generative RunPhases spec (Trace_RunPhases, six end-to-end paths must be exercised); cooperative users-pool schedules incl. a pool started on a dead context (Trace_ContinuousPool InvC05, mutant Mut_ContinuousPool_precancel refuted); order-based clause 'cancel() returned during setup => nothing starts'; whole runs also through the real command line (F1.ExecuteWithArgs: flag parsing, run_cmd plumbing, run file <path>, SIGINT as the cancellation); command-line runs also as the SECOND run on their F1 instance and as a component of CombineScenarios; limits.max-duration shorter than the stages through run file",
+ "C06": "every whole run replayed as ACTIONS of RunPhases (setup / setup cleanups / summary order); cancellation / Ctrl-C during a setup that then fails; whole runs also through the real command line (F1.ExecuteWithArgs: flag parsing, run_cmd plumbing, run file <path>, SIGINT as the cancellation); command-line runs also as the SECOND run on their F1 instance and as a component of CombineScenarios; failing setup / setup cleanup with failure tolerances configured",
  "C07": "helper goroutines guarded by testing.CheckResults(t, done); FailNow/panic inside t.Time; quiet vs listening logger alternated; two helper goroutines reporting on one channel; exported metric under the wrong outcome",
  "C08": "the ten verdict theorems for ALL counts and options by Apalache (VerdictInd; >= mutant refuted); every exact boundary up to 400/2500 iterations; CLI rows with dropped iterations; Ctrl-C during a failing / healthy setup through the real CLI; CLI rows fresh and as second run on the instance",
- "C09": "stalled-trigger runs; configured rate evaluated at most once per configured interval under sub-tick distributions (scripted rates); fractional tick intervals",
- "C10": "interpolation theorem for all naturals by Apalache (StagedInd; mutant refuted); hour/minute units with targets up to 10^6; ramps per N units; zero-padded numbers; stage targets below zero (also in MC_Staged*); profiles through the command line as second run (defaults of omitted flags)",
- "C11": "carry relations inductive by Apalache (GaussCarryInd); windows visited out of order, tick phase, zero weights; weight lists written with empty entries; the profile through --distribution random/regular",
- "C12": "fixed-point accumulator conserves every cycle for all n < Q and all rates by Apalache (DistributionInd; n up to 3Q refuted); negative-rate cycles; sub-tick interval and cycle totals of a staged stage through the config-file parser",
- "C13": "balance bound inductive for every jitter below 100 % and every rate by Apalache (JitterInd; tighter bound refuted); jitter through the config-file parser (explicit 0 vs default)",
- "C14": "YAML and CLI field x level x bad-value matrices in child processes, incl. sub-tick distributions with profiles below zero; the whole range of --max-iterations",
- "C15": "jitter inheritance through Trace_ConfigJitter (explicit 0 kept); stage loop held past the deadline; failure tolerances of the limits section through run file verdict rows",
- "C16": "failing setup between two runs and different scenario names on one metrics instance; Metrics.tla models the push gateway (POST mutant refuted); runs pushing to a PUT/POST-faithful gateway (Trace_Gateway)",
- "C17": "min*count <= sum <= max*count for any sequence of durations by Apalache (AggregateInd; mutant refuted); second run of a scenario on one metrics instance; op sequences through run.Result as a progress tick makes them",
- "C18": "Stop immediately after Start; one carried tick allowed after Restart; whole-run clause with a slow progress sink; restart attribution by the runner's own processing point",
- "C19": "results carrying two and three errors; summary banner vs verdict on whole runs with a failing teardown",
- "C20": "FailNow / panic inside t.Time in components",
+ "C09": "stalled-trigger runs; configured rate evaluated at most once per configured interval under sub-tick distributions (scripted rates); fractional tick intervals; per-stage cadence in config-file runs",
+ "C10": "interpolation theorem for all naturals by Apalache (StagedInd; mutant refuted); hour/minute units with targets up to 10^6; ramps per N units; zero-padded numbers; stage targets below zero (also in MC_Staged*); profiles through the command line as second run (defaults of omitted flags); staged step profile under a stalled trigger goroutine on whole runs (clause C10 of F1Run)",
+ "C11": "carry relations inductive by Apalache (GaussCarryInd); windows visited out of order, tick phase, zero weights; weight lists written with empty entries; the profile through --distribution random/regular; volume per window through the command line as second run on an instance",
+ "C12": "fixed-point accumulator conserves every cycle for all n < Q and all rates by Apalache (DistributionInd; n up to 3Q refuted); negative-rate cycles; sub-tick interval and cycle totals of a staged stage through the config-file parser; default vs stage distribution in a config file",
+ "C13": "balance bound inductive for every jitter below 100 % and every rate by Apalache (JitterInd; tighter bound refuted); jitter through the config-file parser (explicit 0 vs default); the jittered rate through the sub-tick distributions",
+ "C14": "YAML and CLI field x level x bad-value matrices in child processes, incl. sub-tick distributions with profiles below zero; the whole range of --max-iterations; --startTime values",
+ "C15": "jitter inheritance through Trace_ConfigJitter (explicit 0 kept); stage loop held past the deadline; failure tolerances of the limits section through run file verdict rows; a stage lasts its configured duration",
+ "C16": "failing setup between two runs and different scenario names on one metrics instance; Metrics.tla models the push gateway (POST mutant refuted); runs pushing to a PUT/POST-faithful gateway (Trace_Gateway); a run ending while a periodic push waits for a slow gateway",
+ "C17": "min*count <= sum <= max*count for any sequence of durations by Apalache (AggregateInd; mutant refuted); second run of a scenario on one metrics instance; op sequences through run.Result as a progress tick makes them; period figures as the rendered progress line states them",
+ "C18": "Stop immediately after Start; one carried tick allowed after Restart; whole-run clause with a slow progress sink; restart attribution by the runner's own processing point; stalled progress sink; deterministic restart-in-first-schedule traces",
+ "C19": "results carrying two and three errors; summary banner vs verdict on whole runs with a failing teardown; a failing run with a profile requested",
+ "C20": "FailNow / panic inside t.Time in components; lifecycle replays logging to a JSON file",
 }
 
 
